@@ -5,7 +5,7 @@ CONSTANTS
   Menu <- mcMenu
   Init0 <- mcInit
   SrcVals = {"S0", "S1"}
-  UserActs = {"edit", "build", "clean", "tamper", "deltarget", "delcache"}
+  UserActs = {"edit", "build", "clean", "tamper", "deltarget", "rules"}
   Goals = {""}
   MaxUser = 4
   FreeFrom = 99
